@@ -536,6 +536,8 @@ class FixedWidthBinning(BinningBase):
     def _force_bin_existence_single(self, value, includes_right_edge=None):
         if includes_right_edge is None:
             includes_right_edge = self.includes_right_edge
+        # (A narrow numpy float compares equal to the grid edge next to it)
+        value = float(value)
 
         if self._bin_count == 0:
             if not self._align:
